@@ -492,7 +492,7 @@ def m_char_indices(it, s):
     return PyIter(out)
 @model(r'std::string::String::into_bytes')
 def m_into_bytes(it, s): return str_bytes(it, deref_all(s))
-@model(r'core::str::<impl str>::as_bytes')
+@model(r'(core::str::<impl str>|std::string::String)::as_bytes')
 def m_as_bytes(it, s): return Ref(Box_(str_bytes(it, deref_all(s))))
 @model(r'core::str::<impl str>::bytes')
 def m_str_bytes(it, s): return PyIter(str_bytes(it, deref_all(s)))
@@ -742,6 +742,12 @@ def m_from_u32(it, v):
 def m_is_digit(it, c):
     c = deref_all(c)
     return zand(c >= 48, c <= 57)
+@model(r'core::num::<impl u8>::is_ascii_whitespace')
+def m_u8_ws(it, b):
+    b = deref_all(b); return zor(b == 32, b == 9, b == 10, b == 12, b == 13)
+@model(r'core::num::<impl u8>::is_ascii_digit')
+def m_u8_digit(it, b):
+    b = deref_all(b); return zand(b >= 48, b <= 57)
 @model(r'std::char::methods::<impl char>::is_ascii_alphabetic')
 def m_is_alpha(it, c):
     c = deref_all(c); return zor(zand(c >= 65, c <= 90), zand(c >= 97, c <= 122))
